@@ -186,6 +186,17 @@ def run(ctx):
             L += [G.plant("%s/.appdata" % d, "D", mode=0o644, mtime=G.T0 - 90, atime=G.T0 - 80),
                   G.plant("%s/.caf%%e9.idx" % d, "D", mode=0o644, mtime=G.T0 - 70, atime=G.T0 - 60),
                   "mkdir %s/sub" % d, G.plant("%s/sub/inner" % d, "I", mode=0o644, mtime=G.T0 - 50, atime=G.T0 - 40)]
+            # an application staging directory INSIDE the temp directory, old itself, holding young files
+            # named like stale files next to it: the sweep works on direct entries of the temp directory only
+            # (some stale files are created before the staging directory and some after it, so that whatever
+            # order the listing uses, stale entries follow the directory)
+            for j in (0, 1):
+                L.append(G.plant("%s/.kismet_temp/part-%02d" % (d, j), "z", mode=0o600, mtime=G.T0 - 10**13, atime=G.T0 - 10**13))
+            for j in range(5):
+                L.append(G.plant("%s/.kismet_temp/staging/part-%02d" % (d, j), "y", mode=0o600, mtime=G.T0 + 50, atime=G.T0 + 50))
+            for j in (2, 3, 4):
+                L.append(G.plant("%s/.kismet_temp/part-%02d" % (d, j), "z", mode=0o600, mtime=G.T0 - 10**13, atime=G.T0 - 10**13))
+            L.append("mkdirt %s/.kismet_temp/staging %d" % (d, G.T0 - 10**13))
             L += [G.FIRE, "snap", G.op(0, opk[0], ("ok", 7, 9), *opk[1:]), "snap"]
             mcases.append(({"name": "ok", "w": w, "op": opk[0], "maintenance": True}, L))
     for w in (("plain", 1), ("sharded", 4, 4)):
@@ -224,7 +235,7 @@ def run(ctx):
             continue
         for pth, f in before.items():
             last = pth.rsplit("/", 1)[-1]
-            reserved = (last.startswith(".") and not last.startswith(".kismet")) or "/sub/" in pth
+            reserved = (last.startswith(".") and not last.startswith(".kismet")) or "/sub/" in pth or "/staging/" in pth
             if not reserved or f[1] != "f":
                 continue
             g = after.get(pth)
